@@ -132,3 +132,32 @@ Proof.
   destruct (Hf0 f' Hf) as (a & Ha & Hw & Hr). exists a. split; [exact Ha|]. split; [exact Hw|].
   apply Hr. eapply elab_floats_ok; eassumption.
 Qed.
+
+(** accepted (validate) + writable (wneed: proofs/AcceptIff.v, any writer options) => encoded => read back *)
+From FA Require Import proofs.AcceptIff.
+Theorem accepted_roundtrip_wneed n o ro e s v f : wneed n o e s v -> validate f o e s (Some v) = Ok true -> data_ok e s v ->
+  exists f0, forall f', (f0 <= f')%nat -> exists a,
+    elab f' o e s v = WOk a /\ write f' o e s v = WOk (wire a) /\
+    (forall pv, py_of ro e s a = Some pv ->
+       forall f'', (f' <= f'')%nat -> forall r, read f'' ro e s (wire a ++ r) = Ok (pv, r)).
+Proof.
+  intros Hn Hv Hd. destruct (wneed_sufficient n o e s v f Hn Hv) as [f0 Hf0]. exists f0. intros f' Hf.
+  destruct (Hf0 f' Hf) as [a Ha]. exists a. split; [exact Ha|]. split; [unfold write; rewrite Ha; reflexivity|].
+  intros pv Hp. exact (proj2 (roundtrip_conforming_py f' o ro e s v a pv Ha Hd Hp)).
+Qed.
+
+(** C09 closure for what the writer wrote: write v, read the bytes with return_named_type=True, write the result back:
+    the identical bytes (side condition [closb] on the written value, see model/Conform.v) *)
+From FA Require Import proofs.ClosureProofs.
+Theorem closure_written f o e s v a pv :
+  elab f o e s v = WOk a -> data_ok e s v -> closb f o e s a = true -> py_of ro_named e s a = Some pv ->
+  write f o e s v = WOk (wire a) /\
+  (forall f' r, (f <= f')%nat -> read f' ro_named e s (wire a ++ r) = Ok (pv, r)) /\
+  exists f0, forall f', (f0 <= f')%nat -> write f' o e s pv = WOk (wire a).
+Proof.
+  intros H (He & Hs & Hv & Hfe & Hfs & Hfv) Hc Hp.
+  pose proof (elab_typedn f o e s v a H He Hs Hv (elab_floats_ok _ _ _ _ _ _ H Hfe Hfs Hfv)) as Ht.
+  split; [unfold write; rewrite H; reflexivity|]. split.
+  - intros f' r Hf. unfold read. rewrite (wire_dec f e s a Ht f' Hf r). cbn [bind]. rewrite Hp. reflexivity.
+  - exact (closure_bytes f o e s a pv Ht Hc Hp).
+Qed.
